@@ -128,16 +128,17 @@ void run_sched_ops(std::string &log, const NodeView &v, DateTime t, bool started
             if (op.a.size() > 3 && op.a[3].is_str()) tag = op.a[3].s;
             const bool wall = mode == "wall" || mode == "wallrel";
             NodeScheduler s = mk_sched(v, t, started, wall);
+            log += ","; jstr(log, mode); log += "," + std::to_string(n) + ","; if (tag) jstr(log, *tag); else log += "null";
             if (mode == "rel") s.schedule(TimeDelta{n}, tag);
             else if (mode == "abs") s.schedule(abs_t(n), tag);
             else if (mode == "wallrel") s.schedule(TimeDelta{n}, tag, true);
-            else if (mode == "wall") s.schedule(v.evaluation_clock().now() + TimeDelta{n}, tag, true);
+            else if (mode == "wall") { DateTime wn = v.evaluation_clock().now(); log += "," + jtime(wn); s.schedule(wn + TimeDelta{n}, tag, true); }
             else throw std::runtime_error("harness: bad sched mode");
             log += ','; sched_query(log, s, tags);
         } else {
             NodeScheduler s = mk_sched(v, t, started, false);
-            if (k == "u") { if (op.a.size() > 1 && op.a[1].is_str()) s.un_schedule(op.a[1].s); else s.un_schedule(); }
-            else if (k == "pop") { DateTime r = s.pop_tag(op.a.at(1).as_str()); log += ',' + jtime(r); }
+            if (k == "u") { if (op.a.size() > 1 && op.a[1].is_str()) { log += ","; jstr(log, op.a[1].s); s.un_schedule(op.a[1].s); } else { log += ",null"; s.un_schedule(); } }
+            else if (k == "pop") { log += ","; jstr(log, op.a.at(1).as_str()); DateTime r = s.pop_tag(op.a.at(1).as_str()); log += ',' + jtime(r); }
             else if (k == "reset") s.reset();
             else if (k == "q") {}
             else throw std::runtime_error("harness: bad sched op " + k);
